@@ -267,6 +267,16 @@ def coq_props(pid, extra_files=(), timeout=1500):
     return res
 
 
+def coqchk(pid, timeout=2400):
+    """Independent re-check (coqchk) of Props/<pid>.vo and everything it
+    depends on; returns (ok, summary text with the axioms it lists)."""
+    with Lock("coq"):
+        rc, out = run(["coqchk", "-silent", "-o", "-Q", ".", "Nexus", "Nexus.Props." + pid], cwd=COQ, timeout=timeout)
+    tail = out[-1500:]
+    m = re.search(r"(CONTEXT SUMMARY.*)", out, re.S)
+    return rc == 0, (m.group(1) if m else tail)[:3000]
+
+
 def _uptodate(target):
     with Lock("coq"):
         rc, _ = run(["make", "-f", "Makefile.coq", "-q", target], cwd=COQ, timeout=300)
